@@ -69,9 +69,19 @@ func buildHistory(T uint32, ops []Op) (*World, error) {
 	return w, nil
 }
 
-func (w *World) commitRaw(workers int, relaxed bool) error {
+// commitPanic is what commitRaw returns when the library's commit panicked instead of returning.
+type commitPanic struct{ what string }
+
+func (p *commitPanic) Error() string { return "commit panicked: " + p.what }
+
+func (w *World) commitRaw(workers int, relaxed bool) (err error) {
 	w.Ledger.Phase = "commit"
 	defer func() { w.Ledger.Phase = "" }()
+	defer func() {
+		if r := recover(); r != nil {
+			err = &commitPanic{fmt.Sprint(r)}
+		}
+	}()
 	if relaxed {
 		return w.St.NondeterministicFastCommit(workers)
 	}
@@ -205,6 +215,9 @@ func c14RunWith(build func() (*World, error), workers int, relaxed bool, set []i
 				}
 				payload[c.ID] = h
 			}
+		}
+		if cp, ok := cerr.(*commitPanic); ok {
+			return fmt.Sprintf("attempt %d: %s (a failed ledger call must be reported as an error)", attempt, cp.Error())
 		}
 		if failedHere != (cerr != nil) {
 			return fmt.Sprintf("attempt %d: a ledger mutation failed=%v but commit returned %v", attempt, failedHere, cerr)
